@@ -184,6 +184,17 @@ def edit_in_place(built):
     return changed[0]
 
 
+def carry_data_args(old, new):
+    """new argument set (fresh axes, option dicts, ...) in which the data arguments are the *objects* of the old one"""
+    new = list(new)
+    k = 3 if len(new) == 5 else 0
+    a_old, a_new = list(old[k]), list(new[k])
+    n = 2 if len(a_old) >= 2 and type(a_old[1]) is type(a_old[0]) else 1
+    a_new[:n] = a_old[:n]
+    new[k] = tuple(a_new)
+    return tuple(new)
+
+
 def run_spec(ctx, name, fault=None, record_args=True, built=None, holder=None):
     """Returns canonical value (JSON).  Argument purity is monitored here.
     name "<spec>@edited": the arguments are built, edited in place (edit_in_place) and then used for the call.
@@ -327,7 +338,8 @@ def _run_history(ctx, steps):
             holder = {}
             value, injected = run_spec(ctx, name, built=built, holder=holder)
             if edit_in_place(built):
-                v2, _ = run_spec(ctx, name, built=built, holder=holder)
+                # same data objects; everything else (axes, option dicts) as a caller would pass it to a new call
+                v2, _ = run_spec(ctx, name, built=carry_data_args(built, s.build()), holder=holder)
                 ctx.count("calls_with_same_objects_edited_in_place")
                 if v2 != ref[name + "@edited"]:
                     ctx.violation(f"history-dependent:{s.func}:same-objects-edited",
